@@ -6,7 +6,8 @@ import time
 
 from common import KANI_TARGET, Undecided, log, run
 
-JOBS = int(os.environ.get("VERIF_JOBS", "12"))
+JOBS = int(os.environ.get("VERIF_JOBS", "8"))
+MEM_GB = int(os.environ.get("VERIF_MEM_GB", "12"))  # address-space limit per process (cbmc)
 
 
 class HarnessResult:
@@ -54,8 +55,12 @@ def parse_harness_file(text, res):
         res.time_s = float(m.group(1))
     if "CBMC timed out" in text:
         res.status = "timeout"
+    elif "run out of memory" in text:
+        res.status = "out-of-memory"
     elif "VERIFICATION:- SUCCESSFUL" in text:
         res.status = "success"
+    elif "VERIFICATION:- FAILED" in text and res.checks_failed == 0 and re.search(r"Status: ERROR|CBMC failed with status", text):
+        res.status = "solver-error"   # solver / memory limit: tool limit, not a property failure
     elif "VERIFICATION:- FAILED" in text:
         res.status = "failed"
         if res.checks_failed == 0:
@@ -82,7 +87,7 @@ def classify(res):
 
 
 def run_kani(tree, crate, harnesses, timeout_s, harness_timeout_s, extra_args=(), features=None, exact=True,
-             solver=None, jobs=None):
+             solver=None, jobs=None, env=None):
     """harnesses: list of short harness names (fn names, unique in the crate). Returns dict name -> HarnessResult,
     plus the command line and total seconds."""
     os.makedirs(KANI_TARGET, exist_ok=True)
@@ -101,8 +106,8 @@ def run_kani(tree, crate, harnesses, timeout_s, harness_timeout_s, extra_args=()
     cmd += list(extra_args)
     for h in harnesses:
         cmd += ["--harness", h]
-    shown = "CARGO_NET_OFFLINE=true " + " ".join(cmd)
-    rc, out, secs = run(cmd, cwd=tree, timeout=timeout_s)
+    shown = "CARGO_NET_OFFLINE=true " + "".join("%s='%s' " % kv for kv in (env or {}).items()) + " ".join(cmd)
+    rc, out, secs = run(cmd, cwd=tree, timeout=timeout_s, mem_gb=MEM_GB, env=env)
     results = {h: HarnessResult(h) for h in harnesses}
     # build failure?
     if "Checking harness" not in out and "Complete -" not in out:
@@ -134,14 +139,14 @@ def run_kani(tree, crate, harnesses, timeout_s, harness_timeout_s, extra_args=()
     return results, shown, secs, out
 
 
-def playback_values(tree, crate, harness, timeout_s, extra_args=(), features=None):
+def playback_values(tree, crate, harness, timeout_s, extra_args=(), features=None, env=None):
     """Re-run one failing harness with concrete playback and return (unit test text, raw output)."""
     cmd = ["cargo", "kani", "-p", crate, "--target-dir", KANI_TARGET, "-Z", "function-contracts", "-Z", "stubbing",
            "-Z", "concrete-playback", "--concrete-playback=print", "--harness", harness]
     if features:
         cmd += ["--features", features]
     cmd += list(extra_args)
-    rc, out, secs = run(cmd, cwd=tree, timeout=timeout_s)
+    rc, out, secs = run(cmd, cwd=tree, timeout=timeout_s, env=env)
     m = re.search(r"```\n(.*?)```", out, re.S)
     test = m.group(1) if m else None
     return test, out
